@@ -3,7 +3,7 @@
 (* (device shape, the one alteration, what the model's Sys ends up with).  *)
 EXTENDS AttestFlow, Json
 EmitB == Terminal => PrintT("B " \o ToJson([plat |-> obs.plat, framing |-> obs.framing, cfg |-> cfg,
-                                              alt |-> alt, net |-> net, shape |-> shape, digest |-> digest, hist |-> hist, g_err |-> obs.g_err, g_onboard |-> obs.g_onboard,
+                                              alt |-> alt, net |-> net, shape |-> shape, clock |-> clock, digest |-> digest, hist |-> hist, g_err |-> obs.g_err, g_onboard |-> obs.g_onboard,
                                               g_attest |-> obs.g_attest, gather |-> obs.gather,
                                               verify |-> obs.verify, verify2 |-> obs.verify2]))
 =============================================================================
